@@ -2,7 +2,10 @@
    R <thunk_hex> <to_hex>            -> bytes=<26 hex> get=<hex> tgt=<hex|none>
    H <n> <undef_hex> | <callees> | <op> ; <op> ...
       ops: load f a | interp f a | gen f a | lazy f a | bb f a | call f a1,a2,...
-      -> per op " || ok # f:addr:bytes:mc:ca:data:linked:kind ..."  or " || STUCK <why>" (stops) *)
+      -> per op " || ok # f:addr:bytes:mc:ca:data:linked:kind ..."  or " || STUCK <why>" (stops)
+   W <param> ...   param: i | d | l | b<cls>:<size>
+      -> wf=<0|1> va=<walk> ff=<walk> gen=<walk>   walk: parameters separated by ';', eightbytes by ',':
+         I<n> integer register n, F<n> SSE register n, S<off> stack argument area offset *)
 open C03x
 
 let rec nat_of_int n = if n <= 0 then O else S (nat_of_int (n - 1))
@@ -138,6 +141,24 @@ let run_b (line : string) =
       (match jump_target thunk b2 with Some a -> hex_of_z a | None -> "none")
   | _ -> print_endline "BAD"
 
+(* W: argument locations of the three conventions (coq/C03/ArgPass.v) *)
+let run_w (line : string) =
+  let zi n = z_of_hex (Printf.sprintf "%x" n) in
+  let param w =
+    if w = "i" then PInt else if w = "d" then PFp else if w = "l" then PLd
+    else match String.split_on_char ':' (String.sub w 1 (String.length w - 1)) with
+      | [c; sz] when w.[0] = 'b' -> PBlk (zi (int_of_string c), zi (int_of_string sz))
+      | _ -> failwith ("bad param: " ^ w) in
+  let loc = function RInt n -> "I" ^ string_of_int (int_of_z n) | RFp n -> "F" ^ string_of_int (int_of_z n)
+                   | Stk o -> "S" ^ string_of_int (int_of_z o) in
+  let show wk = String.concat ";" (List.map (fun l -> String.concat "," (List.map loc l)) wk) in
+  match words line with
+  | "W" :: ps ->
+    let ps = List.map param ps in
+    Printf.printf "wf=%d va=%s ff=%s gen=%s\n" (if wf_params ps then 1 else 0)
+      (show (va_walk ps)) (show (ff_walk ps)) (show (gen_walk ps))
+  | _ -> print_endline "BAD"
+
 let () =
   try
     while true do
@@ -146,6 +167,7 @@ let () =
       else if line.[0] = 'R' then run_r line
       else if line.[0] = 'B' then run_b line
       else if line.[0] = 'H' then run_h line
+      else if line.[0] = 'W' then run_w line
       else print_endline "BAD"
     done
   with End_of_file -> ()
